@@ -60,6 +60,73 @@ T_NAMES = ("foo", "bar", "snippets/foo", "snippets/bar", "alt/foo", "alt/bar")
 T_CHANNELS = (0, 2, 3, 5)  # top-level by name / render tag / include tag / variant='alt'
 
 
+# constructor-argument families ("ctor-*"): names with and without a suffix
+C_NAMES = ("a", "b", "c.txt")
+C_ENCODINGS = ("utf-8", "latin-1", "utf-16", "cp1252")
+C_EXTS = (None, ".liquid", ".html")
+C_PATHKINDS = ("str", "Path", "list")
+# non-ASCII text every source contains, restricted to what the encoding can express
+C_CHARS = {"utf-8": "éß€漢", "latin-1": "éß", "utf-16": "éß€漢", "cp1252": "éß€"}
+
+
+def is_c_family(fam: str) -> bool:
+    return fam.startswith("ctor-")
+
+
+def held_histories(length: int, with_ns: bool) -> Iterator[tuple[Op, ...]]:
+    """Held-template family: every history of exactly *length* steps that ends in rendering
+    a template KEPT from an earlier load, over {load a / b with or without globals, load a
+    through a second Environment, load a under a namespace (with_ns)} and {modify a, break a
+    (unparsable source), delete a, modify b} and renders of kept templates."""
+    loads = [Op("load", n, 0, g) for n in (0, 1) for g in (1, 0)]
+    loads.append(Op("load", 0, 0, 1, 0, 0, 1))
+    if with_ns:
+        loads.append(Op("load", 0, 1, 1))
+    changes = (Op("modify", 0), Op("break", 0), Op("delete", 0), Op("modify", 1))
+
+    def rec(prefix: tuple[Op, ...], n_loads: int) -> Iterator[tuple[Op, ...]]:
+        final = len(prefix) + 1 == length
+        last = prefix[-1] if prefix else None
+        for j in range(n_loads):
+            op = Op("held", j)
+            if final:
+                yield (*prefix, op)
+            elif not (last is not None and last.kind == "held" and last.name == j):
+                yield from rec((*prefix, op), n_loads)
+        if final:
+            return
+        for ld in loads:
+            if n_loads == 0 and ld.name != 0:
+                continue  # canonical: the first load is of name a
+            yield from rec((*prefix, ld), n_loads + 1)
+        for c in changes:
+            if last is not None and last.kind in ("modify", "break", "delete") and last.name == c.name:
+                continue
+            yield from rec((*prefix, c), n_loads)
+
+    yield from rec((), 0)
+
+
+def ctor_histories() -> Iterator[tuple[Op, ...]]:
+    """Loads of a / b / c.txt by name or through a render tag, sync or async: every
+    history of length <= 2 (second step may also follow a modify / delete) and every
+    load, modify, load."""
+    loads = [Op("load", n, 0, 0, mode, via) for n in range(3) for via in (0, 2) for mode in (0, 1)]
+    for a in loads:
+        yield (a,)
+    for a in loads:
+        for b in loads:
+            yield (a, b)
+    for kind in ("modify", "delete"):
+        for n in range(3):
+            for b in loads:
+                yield (Op(kind, n), b)
+    for a in loads:
+        for n in range(3):
+            for b in loads:
+                yield (a, Op("modify", n), b)
+
+
 def is_ns_family(fam: str) -> bool:
     return fam.startswith("ns-")
 
@@ -119,7 +186,7 @@ def is_p_family(fam: str) -> bool:
 
 def concrete_names(fam: str) -> bool:
     """Families whose template names mean something (never renamed, always printed)."""
-    return is_ns_family(fam) or is_p_family(fam) or is_t_family(fam)
+    return is_ns_family(fam) or is_p_family(fam) or is_t_family(fam) or is_c_family(fam)
 
 
 def names_of(fam: str) -> tuple[str, ...]:
@@ -127,6 +194,8 @@ def names_of(fam: str) -> tuple[str, ...]:
         return P_NAMES
     if is_t_family(fam):
         return T_NAMES
+    if is_c_family(fam):
+        return C_NAMES
     return NS_NAMES if is_ns_family(fam) else NAMES
 
 
@@ -447,7 +516,7 @@ def show_op(o: Op, fam: str = "") -> str:
         elif is_p_family(fam):
             if o.ns:
                 s += f"[globals ns={NAMESPACES[o.ns - 1]}]"
-        elif is_t_family(fam):
+        elif is_t_family(fam) or is_c_family(fam):
             if o.via:
                 s += "[variant='alt']" if o.via == 5 else f"[via {VIA[o.via]}]"
         elif o.ns:
@@ -458,6 +527,8 @@ def show_op(o: Op, fam: str = "") -> str:
         return s
     if o.kind == "fail":
         return "fail-next"
+    if o.kind == "held":
+        return ("arender" if o.mode else "render") + f" the template kept from load #{o.name}"
     if o.kind == "modify" and (o.g or o.via):
         return f"modify {names[o.name]}[mtime {MTIME_KINDS[o.g]}{', rename' if o.via else ''}]"
     return f"{o.kind} {names[o.name]}"
@@ -685,10 +756,11 @@ def mtime_skeletons() -> Iterator[tuple[Op, ...]]:
 
 
 class Entry:
-    __slots__ = ("source", "origin", "stamp", "step", "env")
+    __slots__ = ("source", "origin", "stamp", "step", "env", "bound")
 
     def __init__(self, source: str, origin: str, stamp: object, step: int, env: int = 0):
         self.env = env  # which Environment parsed it (a template answers only for that one)
+        self.bound: object = None  # (held-template family) globals of the last load that hit it
         self.source = source  # snapshot of the source text when it was loaded
         self.origin = origin  # where the uncached loader found it (file path / dict key)
         self.stamp = stamp  # freshness token of the origin at load time (mtime) or None
@@ -791,7 +863,9 @@ def expect_load(
         other = Entry(now[1], now[2], now[3], step, env_tag)
         return [Alt(("ok", now[1]), kind, False, lambda: (model.put(key, other), None)[1])]
     if e is not None:
-        if not (auto_reload and has_fresh):
+        # freshness information is per entry: an entry that came from a source without any
+        # (a dict delegate inside a choice loader) has no stamp
+        if not (auto_reload and has_fresh and e.stamp is not None):
             return [Alt(("ok", e.source), "hit", False, lambda: model.touch(key))]
         if is_fresh(e):
             if now[0] == "ok" and now[2] == e.origin and now[1] != e.source:
@@ -852,7 +926,7 @@ def pattern(ops: list[Op], category: str, fam: str = "") -> str:
     names: list[int] = []
     nss: list[int] = []
     for o in ops:
-        if o.kind != "fail" and o.name not in names:
+        if o.kind not in ("fail", "held") and o.name not in names:
             names.append(o.name)
         if o.kind == "load" and o.ns and o.ns not in nss:
             nss.append(o.ns)
@@ -866,12 +940,17 @@ def pattern(ops: list[Op], category: str, fam: str = "") -> str:
         if o.kind == "fail":
             parts.append("fail-next")
             continue
+        if o.kind == "held":
+            parts.append(("arender" if o.mode else "render") + f"-kept#{o.name}")
+            continue
         if nsfam:
             nm = " " + NS_NAMES[o.name]
         elif pfam:
             nm = " " + P_NAMES[o.name]
         elif is_t_family(fam):
             nm = " " + T_NAMES[o.name]
+        elif is_c_family(fam):
+            nm = " " + C_NAMES[o.name]
         else:
             nm = " " + "xyz"[names.index(o.name)] if multi_n else ""
         if o.kind != "load":
@@ -888,7 +967,7 @@ def pattern(ops: list[Op], category: str, fam: str = "") -> str:
                 s += f"[ns={NS_VALUES[o.ns - 1]!r}" + (f" via {VIA[o.via]}" if o.via else "") + "]"
             elif o.via:
                 s += f"[via {VIA[o.via]}]"
-        elif is_t_family(fam):
+        elif is_t_family(fam) or is_c_family(fam):
             if o.via:
                 s += "[variant='alt']" if o.via == 5 else f"[via {VIA[o.via]}]"
         elif o.ns:
@@ -922,7 +1001,7 @@ def sort_commuting(ops: list[Op]) -> list[Op]:
         run.clear()
 
     for o in ops:
-        if o.kind == "load":
+        if o.kind in ("load", "held"):
             flush()
             out.append(o)
         else:
@@ -977,7 +1056,7 @@ def simplifications(ops: list[Op], fam: str = "") -> Iterator[list[Op]]:
             yield [*ops[:i], o._replace(g=1), *ops[i + 1 :]]
     # merge names: replace the highest name by a lower one everywhere
     used = sorted({o.name for o in ops if o.kind != "fail"})
-    if len(used) > 1 and not concrete_names(fam):
+    if len(used) > 1 and not concrete_names(fam) and not any(o.kind == "held" for o in ops):
         hi = used[-1]
         for lo in used[:-1]:
             yield [o._replace(name=lo) if (o.kind != "fail" and o.name == hi) else o for o in ops]
